@@ -5,6 +5,7 @@ import (
 	"fmt"
 	"io"
 	"math/rand"
+	"os"
 	"reflect"
 	"sort"
 	"strings"
@@ -47,6 +48,7 @@ type c11Cfg struct {
 	IndexLimit int // effective ColumnIndexSizeLimit
 	MaxRows    int64
 	Bloom      map[string]uint // leaf path -> bits per value
+	DeferBloom bool            // DeferBloomFiltersWithBuffers: filters are written at the end of the file
 	Desc       string
 }
 
@@ -132,6 +134,11 @@ func c11RandCfg(r *rand.Rand, schema *parquet.Schema) *c11Cfg {
 			}
 			sort.Strings(keys)
 			extra = append(extra, fmt.Sprintf("bloom=%d@%s", bpv, strings.Join(keys, "+")))
+			if r.Intn(2) == 0 {
+				c.DeferBloom = true
+				c.Opts = append(c.Opts, parquet.DeferBloomFiltersWithBuffers(parquet.NewBufferPool()))
+				extra = append(extra, "deferbloom")
+			}
 		}
 	}
 	c.Desc = b.Desc + fmt.Sprintf(" pagestats=%v limit=%d %s", c.Stats, c.IndexLimit, strings.Join(extra, " "))
@@ -140,7 +147,7 @@ func c11RandCfg(r *rand.Rand, schema *parquet.Schema) *c11Cfg {
 
 // c11CfgLike returns B as a copy of A (so that the verbatim path is eligible) with a few axes re-drawn.
 func c11CfgLike(r *rand.Rand, a *c11Cfg, schema *parquet.Schema) *c11Cfg {
-	c := &c11Cfg{Base: a.Base, Opts: append([]parquet.WriterOption{}, a.Opts...), Stats: a.Stats, IndexLimit: a.IndexLimit, MaxRows: a.MaxRows, Bloom: a.Bloom}
+	c := &c11Cfg{Base: a.Base, Opts: append([]parquet.WriterOption{}, a.Opts...), Stats: a.Stats, IndexLimit: a.IndexLimit, MaxRows: a.MaxRows, Bloom: a.Bloom, DeferBloom: a.DeferBloom}
 	var extra []string
 	switch r.Intn(6) {
 	case 0:
@@ -411,6 +418,9 @@ type c11Source struct {
 	kind string
 	rg   parquet.RowGroup
 	rows []reflect.Value // Go rows in order (nil = expectation comes from rg.Rows() only)
+	// for (nested) multi row groups built by the harness: the member row groups in order; the rows
+	// of the whole must be the concatenation of the members' own Rows()
+	leaves []parquet.RowGroup
 }
 
 func c11ReadRows(rg parquet.RowGroup) (out []parquet.Row, err error) {
@@ -828,6 +838,30 @@ func aspectClass(a string) string {
 	return a
 }
 
+// c11SpecCheck pipes a file through `file.check` of the C02 spec reader; "" = accepted
+func c11SpecCheck(d interface {
+	AskMany([]string) ([]string, error)
+}, file []byte, maxRows int64) string {
+	f, err := os.CreateTemp("", "c11-*.parquet")
+	if err != nil {
+		return ""
+	}
+	defer os.Remove(f.Name())
+	if _, err := f.Write(file); err != nil {
+		f.Close()
+		return ""
+	}
+	f.Close()
+	ans, err := d.AskMany([]string{fmt.Sprintf("file.check %s %d", f.Name(), maxRows)})
+	if err != nil || len(ans) != 1 {
+		return ""
+	}
+	if strings.HasPrefix(ans[0], "ok") {
+		return ""
+	}
+	return ans[0]
+}
+
 func c11AllVerbatim(paths []string) bool {
 	for _, p := range paths {
 		if p != "verbatim" {
@@ -880,7 +914,10 @@ func c11SpliceL2(ctx *core.Ctx, env *c11Env, d interface {
 			}
 			req = append(req, src.layoutText(bl, true))
 			want = append(want, og[ci].layoutText(0, false))
-			if og[ci].BloomOff != 0 {
+			if c.b.DeferBloom {
+				req[len(req)-1] = src.layoutText(0, true) // written by writeDeferredBloomFilters at the end of the file
+				blooms = append(blooms, "n")
+			} else if og[ci].BloomOff != 0 {
 				blooms = append(blooms, fmt.Sprintf("%d.%d", og[ci].BloomOff, og[ci].BloomLen))
 			} else {
 				blooms = append(blooms, "n")
@@ -1012,6 +1049,38 @@ func c11Run(ctx *core.Ctx, env *c11Env, d interface {
 		}
 		want = append(want, rows...)
 	}
+	// (nested) multi row groups: Rows() of the whole must be the members' Rows() one after the other
+	for _, s := range c.srcs {
+		if s.leaves == nil || len(c.srcs) != 1 {
+			continue
+		}
+		var indep []parquet.Row
+		for _, l := range s.leaves {
+			rows, err := c11ReadRows(l)
+			if err != nil {
+				ctx.Hist("skipped", "member-rows-unreadable kind="+c.kind)
+				return
+			}
+			indep = append(indep, rows...)
+		}
+		canon := func(row parquet.Row) string { // floats by bit pattern (NaN payloads)
+			var sb strings.Builder
+			for _, v := range row {
+				fmt.Fprintf(&sb, "%d:%v;", v.Column(), gen.TripleOf(v))
+			}
+			return sb.String()
+		}
+		same := len(indep) == len(want)
+		for i := 0; same && i < len(want); i++ {
+			same = canon(want[i]) == canon(indep[i])
+		}
+		if !same {
+			ctx.Fail("L1", "multi-row-group-rows-bypass-member-semantics kind="+c.kind,
+				fmt.Sprintf("Rows() of a (nested) MultiRowGroup yields %d rows, its members' Rows() one after the other %d rows: a member's Rows() semantics is bypassed", len(want), len(indep)),
+				map[string]any{"type": c.entry.Name, "kind": c.kind, "source": c.srcDesc, "config_A": c.a.Desc})
+		}
+		want = indep
+	}
 	nontrivial := len(want) >= 2 && c.a.Desc != c.b.Desc
 	ctx.Case(c.entry.Name+"|"+c.kind+"|"+c.srcDesc+"|"+c.a.Desc+"|"+c.b.Desc+"|"+strings.Join(c.valTexts, "|"), nontrivial)
 	ctx.Hist("kind", c.kind)
@@ -1123,6 +1192,27 @@ func c11Run(ctx *core.Ctx, env *c11Env, d interface {
 		return
 	}
 	pathSig := fmt.Sprintf("copy=%v reencode=%v", out.copyN > 0, out.reencN > 0)
+	// the output must be readable row by row (the row reader insists on pages starting at a row)
+	if _, _, err := gen.ReadRowsColumns(out.file, 64); err != nil {
+		if _, _, rerr := gen.ReadRowsColumns(ref, 64); rerr != nil {
+			ctx.Hist("row-path-file-unreadable-by-rows-too", c.kind)
+		} else {
+			ctx.Fail("L1", "output-rows-unreadable "+pathSig+" "+errClass(err), "the file written through WriteRowGroup cannot be read back row by row: "+err.Error(),
+				detail(map[string]any{"copied_chunks": out.copyN, "reencoded_row_groups": out.reencN}))
+		}
+	}
+	// ... and accepted by the Lean spec reader of C02 (structure, page/row alignment, counts)
+	if d != nil {
+		if why := c11SpecCheck(d, out.file, c.b.MaxRows); why != "" {
+			if c11SpecCheck(d, ref, c.b.MaxRows) != "" {
+				ctx.Hist("row-path-file-rejected-by-spec-reader-too", c02Class(why))
+			} else {
+				ctx.Fail("L1", "output-rejected-by-spec-reader "+pathSig+" "+c02Class(why), "the independent (Lean) Parquet reader rejects the file written through WriteRowGroup, and accepts the one written row by row: "+why,
+					detail(map[string]any{"copied_chunks": out.copyN, "reencoded_row_groups": out.reencN}))
+			}
+		}
+		ctx.Hist("spec-reader-checked", c.kind)
+	}
 	tieDependent := false
 	for _, s := range c.srcs {
 		var toks []string
@@ -1335,10 +1425,13 @@ func c11WriteFile(e *gen.Entry, rows reflect.Value, cfg *c11Cfg, extra ...parque
 	return buf.Bytes(), err
 }
 
-var c11KindNames = []string{"file", "buffer", "range", "multi", "merged-unsorted", "merged-sorted", "merged-dedup", "dedup", "converted", "foreign", "foreign-skip", "multi-wrapper", "merged-packed"}
+var c11KindNames = []string{"file", "buffer", "range", "multi", "merged-unsorted", "merged-sorted", "merged-dedup", "dedup", "converted", "foreign", "foreign-skip", "multi-wrapper", "merged-packed", "multi-nested"}
 
 func c11Build(ctx *core.Ctx, env *c11Env, e *gen.Entry, r *rand.Rand, kind string, n int) *c11Case {
 	prof := &gen.Profile{NullProb: []float64{0.1, 0.5}[r.Intn(2)], MaxLen: 1 + r.Intn(3), SmallDomain: r.Intn(2) == 0}
+	if n >= 400 { // repeated columns beyond the 1024-value batches of the column-oriented re-encode path
+		prof.NullProb, prof.MaxLen = 0.1, 3+r.Intn(2)
+	}
 	rows := e.NewRows(n)
 	gen.FillRows(r, rows, prof)
 	a := c11RandCfg(r, e.Schema)
@@ -1446,7 +1539,7 @@ func c11Build(ctx *core.Ctx, env *c11Env, e *gen.Entry, r *rand.Rand, kind strin
 				&c11Source{kind: kind, rg: parquet.VerifNewRowRangeRowGroup(rg, k, m-k), rows: []reflect.Value{cf.rows[i].Slice(int(k), int(m))}})
 		}
 		c.srcDesc = fmt.Sprintf("%d range views / row groups", len(c.srcs))
-	case "multi", "multi-wrapper", "merged-unsorted":
+	case "multi", "multi-wrapper", "merged-unsorted", "multi-nested":
 		// 2-3 files (the first under A, the others under A or another configuration), all their row groups
 		texts(rows)
 		cuts := []int{0, n / 3, n / 2, n}
@@ -1491,12 +1584,45 @@ func c11Build(ctx *core.Ctx, env *c11Env, e *gen.Entry, r *rand.Rand, kind strin
 		}
 		switch kind {
 		case "multi":
-			c.srcs = []*c11Source{{kind: kind, rg: parquet.MultiRowGroup(children...), rows: goRows}}
+			c.srcs = []*c11Source{{kind: kind, rg: parquet.MultiRowGroup(children...), rows: goRows, leaves: children}}
 			c.srcDesc = fmt.Sprintf("MultiRowGroup of %d", len(children))
+		case "multi-nested":
+			// MultiRowGroup(MultiRowGroup(file..., wrapper, ...), rest...): the inner multi row group
+			// mixes members that read their chunks in order with a row-dropping wrapper
+			for len(children) < 3 {
+				children = append(children, children[0])
+			}
+			k := 2 + r.Intn(len(children)-2) // members of the inner multi row group
+			w := r.Intn(k)
+			plain := (w + 1) % k
+			children[w] = c11ForeignSkip{children[w]}
+			if _, isFile := children[plain].(*parquet.FileRowGroup); !isFile {
+				ctx.Hist("multi-nested-inner-plain-member", fmt.Sprintf("%T", children[plain]))
+			}
+			inner := parquet.MultiRowGroup(children[:k]...)
+			outer := parquet.MultiRowGroup(append([]parquet.RowGroup{inner}, children[k:]...)...)
+			c.srcs = []*c11Source{{kind: kind, rg: outer, leaves: children}}
+			c.srcDesc = fmt.Sprintf("MultiRowGroup(MultiRowGroup of %d with member %d wrapped by a row-dropping foreign RowGroup, %d more)", k, w, len(children)-k)
+			if r.Intn(2) == 0 {
+				// MaxRowsPerRowGroup below every segment: no fast path, the row path reads the outer Rows()
+				minRows := inner.NumRows()
+				for _, ch := range children[k:] {
+					if ch.NumRows() < minRows {
+						minRows = ch.NumRows()
+					}
+				}
+				if minRows >= 2 {
+					nb := *c.b
+					nb.MaxRows = 1 + r.Int63n(minRows-1)
+					nb.Opts = append(append([]parquet.WriterOption{}, c.b.Opts...), parquet.MaxRowsPerRowGroup(nb.MaxRows))
+					nb.Desc = c.b.Desc + fmt.Sprintf(" maxrows:=%d(below every segment)", nb.MaxRows)
+					c.b = &nb
+				}
+			}
 		case "multi-wrapper":
 			w := r.Intn(len(children))
 			children[w] = c11ForeignSkip{children[w]}
-			c.srcs = []*c11Source{{kind: kind, rg: parquet.MultiRowGroup(children...)}}
+			c.srcs = []*c11Source{{kind: kind, rg: parquet.MultiRowGroup(children...), leaves: children}}
 			c.srcDesc = fmt.Sprintf("MultiRowGroup of %d, child %d wrapped by a row-dropping foreign RowGroup", len(children), w)
 		default:
 			m, err := parquet.MergeRowGroups(children)
@@ -1724,7 +1850,7 @@ func c11F9(ctx *core.Ctx, env *c11Env, d interface {
 }
 
 func RunC11(ctx *core.Ctx) {
-	ctx.SetRule("catalogue struct types x random rows x source configuration A x destination configuration B (page version, codec, page buffer, MaxRowsPerRowGroup, dictionary limit, DataPageStatistics on/off, SkipPageStatistics, SkipPageBounds, deprecated statistics, ColumnIndexSizeLimit 1..64, default encodings, bloom filters; B either drawn independently or A with one axis changed) x source kind {file row groups, Buffer/GenericBuffer, row-range views, MultiRowGroup (files, views, buffers, foreign children), MergeRowGroups unsorted / sorted / dropping duplicates, dedup wrapper, ConvertRowGroup, foreign RowGroup, row-dropping foreign RowGroup, MultiRowGroup over a row-dropping child, MergeRowGroups of 2-4 disjoint sorted files/buffers (packed segments) with MaxRowsPerRowGroup around the total} x destination writer already buffering rows from WriteRows (one case in three, always for packed merges); oracle on the output: rows/order, settings, every row group <= MaxRowsPerRowGroup, configured bloom filters contain every stored value; non-trivial = at least 2 rows and A differs from B")
+	ctx.SetRule("catalogue struct types x random rows x source configuration A x destination configuration B (page version, codec, page buffer, MaxRowsPerRowGroup, dictionary limit, DataPageStatistics on/off, SkipPageStatistics, SkipPageBounds, deprecated statistics, ColumnIndexSizeLimit 1..64, default encodings, bloom filters; B either drawn independently or A with one axis changed) x source kind {file row groups, Buffer/GenericBuffer, row-range views, MultiRowGroup (files, views, buffers, foreign children), MergeRowGroups unsorted / sorted / dropping duplicates, dedup wrapper, ConvertRowGroup, foreign RowGroup, row-dropping foreign RowGroup, MultiRowGroup over a row-dropping child, MergeRowGroups of 2-4 disjoint sorted files/buffers (packed segments) with MaxRowsPerRowGroup around the total} x destination writer already buffering rows from WriteRows (one case in three, always for packed merges); nested MultiRowGroups mixing file and wrapper members with MaxRowsPerRowGroup below every segment; deferred bloom filter buffers; sources of 600/1030 rows (repeated columns beyond the 1024-value re-encode batches); oracle on the output: readable row by row and accepted by the C02 Lean spec reader (file.check), rows of (nested) multi row groups = members' Rows() in order, rows/order, settings, every row group <= MaxRowsPerRowGroup, configured bloom filters contain every stored value; non-trivial = at least 2 rows and A differs from B")
 	// fixed case first (corpus)
 	{
 		env := &c11Env{chunkOf: map[*parquet.FileColumnChunk]*c11Chunk{}}
@@ -1754,6 +1880,12 @@ func RunC11(ctx *core.Ctx) {
 					n := []int{1, 2, 3, 9, 33, 64, 65, 100, 130, 257}[r.Intn(10)]
 					if kind == "merged-packed" && n < 9 {
 						n = 9 + 8*n
+					}
+					switch kind {
+					case "buffer", "file", "range", "multi", "merged-packed", "foreign":
+						if r.Intn(8) == 0 {
+							n = []int{600, 1030}[r.Intn(2)]
+						}
 					}
 					env := &c11Env{chunkOf: map[*parquet.FileColumnChunk]*c11Chunk{}}
 					var c *c11Case
